@@ -13,4 +13,17 @@ python3 "$VERIF_DIR/tools/mkoverlay.py" - "$VERIF_DIR/out/rw/ov.$$.json" >/dev/n
 mv -f "$rwbin.$$" "$rwbin"; rm -f "$VERIF_DIR/out/rw/ov.$$.json"
 rm -rf "$outDir/src"
 pkgs=$(grep -v '^#' "$VERIF_DIR/checks/$name/SCHED" | tr '\n' ' ')
+# the check's in-package accessor files belong to the instrumented packages: hand them to the rewriter as well
+python3 - "$VERIF_DIR/checks/${name%%/*}/inpkg" "$REPO" "$outDir/inpkg-overlay.json" <<'PY'
+import json, os, sys
+src, repo, out = sys.argv[1:]
+repl = {}
+if os.path.isdir(src):
+    for root, _, files in os.walk(src):
+        for f in files:
+            if f.endswith(".go"):
+                repl[os.path.normpath(os.path.join(repo, os.path.relpath(root, src), f))] = os.path.join(root, f)
+json.dump({"Replace": repl}, open(out, "w"))
+PY
+export VERIF_RW_OVERLAY="$outDir/inpkg-overlay.json"
 ( cd "$REPO" && "$rwbin" "$outDir" $pkgs )
